@@ -25,6 +25,7 @@ ATTR = [
  ("fix: NCReadStream::eof() could report EOF", ["C04", "C05"]),
  ("fix: FftFilterFloat was retired at end of input", ["C05"]),
  ("fix: Blackman and Blackman-Harris windows", ["C11"]),
+ ("fix: HdlcDeframer panicked on frames shorter", ["C13", "C15"]),
 ]
 log = subprocess.run(["git", "-C", "/repo", "log", "--reverse", "--format=%h\t%s", "--grep", "^fix:"],
                      capture_output=True, text=True).stdout.strip().splitlines()
